@@ -40,7 +40,7 @@ FailChoicesStd == { {}, { <<1, 1>> }, { <<2, 1>> } }
 
 Init == /\ counter = Start /\ holder = Free
         /\ pc = [t \in Threads |-> "check"]
-        /\ nxt = [t \in Threads |-> 0] /\ tmp = [t \in Threads |-> 0]
+        /\ nxt = [t \in Threads |-> Start] /\ tmp = [t \in Threads |-> Start]
         /\ done = [t \in Threads |-> 0]
         /\ sent = <<>>                      \* sequence of [t, own, n]
         /\ own \in OwnChoices
